@@ -267,6 +267,17 @@ pub fn check_c04(case: &RCase, log: &RunLog) -> Vec<Violation> {
             out.push(v("C04/missing-scenario", format!("supplied scenarios that never started: {missing:?}")));
         }
     }
+    // nothing else runs: exactly one first attempt per scenario
+    let mut firsts: HashMap<(&str, Option<&str>, &str), usize> = HashMap::new();
+    for e in log.events.iter().filter(|e| is_sc_started(e)) {
+        let (s, r, _) = e.sc().unwrap();
+        if r.is_none_or(|r| r.0 == 0) {
+            *firsts.entry((e.f.as_str(), e.r.as_deref(), s)).or_default() += 1;
+        }
+    }
+    if let Some((k, n)) = firsts.iter().find(|(_, n)| **n > 1) {
+        out.push(v("C04/duplicate-first-attempt", format!("scenario {k:?} was started {n} times as a first attempt")));
+    }
     // identity: one Source instance per scenario
     let mut ptrs: HashMap<&str, BTreeSet<usize>> = HashMap::new();
     for e in &log.events {
